@@ -194,6 +194,18 @@ def run(run: common.Run):
                     break
             if not bad and any(abs(x - y) > 1e-6 for x, y in zip(tuple(res2.profile['transform'])[:6], tuple(res.profile['transform'])[:6])):
                 bad = f'storing {case["south"]} south-up changes the corrected image geo-transform'
+            # ... nor in what the outputs say about themselves: the same tags (the input files have the same names in both variants)
+            if not bad:
+                pair2 = outs[case['south']][1]
+                for which, t1, t2 in (('corrected', res.tags, res2.tags), ('parameter', res.param_tags, res2.param_tags)):
+                    if t2.get('FUSE_SRC_FILE') != pair2.src_path.name or t2.get('FUSE_REF_FILE') != pair2.ref_path.name:
+                        bad = (f"storing {case['south']} south-up: the {which} image records source / reference file "
+                               f"{t2.get('FUSE_SRC_FILE')!r} / {t2.get('FUSE_REF_FILE')!r}, the files are {pair2.src_path.name!r} / {pair2.ref_path.name!r}")
+                        break
+                    d_ = {k_ for k_ in set(t1) | set(t2) if t1.get(k_) != t2.get(k_)}
+                    if d_:
+                        bad = f"storing {case['south']} south-up changes the {which} image's tags {sorted(d_)}"
+                        break
         # compare(corrected, reference) selects the same reference bands
         if not bad:
             try:
